@@ -22,6 +22,7 @@ import IocProofs.Lemmas.M2IsCode
 import IocProofs.Lemmas.SemFactory2
 import IocProofs.Lemmas.SemDelegate
 import IocProofs.Lemmas.M2Lookups
+import IocProofs.Lemmas.SemMeta
 namespace Ioc.C03
 open Ioc.M2
 
@@ -317,5 +318,26 @@ theorem C03_no_stale_after_lookups (sc : Scen) (wf : WF sc) (ns : List Nat)
     ∀ k i o, o ∈ (Lc.lookupsAfter sc (final sc) ns).fields k i → (Lc.lookupsAfter sc (final sc) ns).l1 o.name = some o := by
   obtain ⟨hi, hnf⟩ := Lc.lookupsAfter_inv sc wf ns (final sc) (inv_run sc wf (fuelBound sc)) hall
   exact hi.quiescent hnf (hi.quiet (by rw [hd]; intro h'; cases h'))
+
+/-! ### the REGENERATED dependents bookkeeping (meta.go: dependOn, GetDependents)
+
+    The stale-version check of doCreateComponent reads `GetDependents()`: under the interpretation Ioc.SemMeta a holder is
+    recorded ONCE PER ID in the definition's OWN set (state of the receiver: nothing outside the definition is consulted), in
+    the order of first recording, and `GetDependents` answers with the names of exactly the recorded holders. -/
+section dependents
+open Ioc.Go Ioc.Sem
+
+theorem C03_code_dependOn (idOf nameOf : Nat → String) (isComp : Nat → Bool) (d : Nat) (w : MW) :
+    run (metaPrims idOf nameOf isComp) Progs.meta_dependOn [.ref d 0] w =
+      some (.tuple [], if w.depSet.contains (idOf d) then w
+                       else { w with dependent := w.dependent ++ [d], depSet := w.depSet ++ [idOf d] }) :=
+  metaDependOn_sem idOf nameOf isComp d w
+
+theorem C03_code_GetDependents (idOf nameOf : Nat → String) (isComp : Nat → Bool) (w : MW) :
+    run (metaPrims idOf nameOf isComp) Progs.meta_GetDependents [] w = some (encStrs (w.dependent.map nameOf), w) :=
+  metaGetDependents_sem idOf nameOf isComp w
+
+end dependents
+
 
 end Ioc.C03
